@@ -76,6 +76,10 @@ class SubCheck:
     # same strategy/oracle (tools/fuzz.py); number of libFuzzer runs in total
     fuzz_runs: int = 0
     fuzz_shards: int = 4
+    # A violation that Hypothesis cannot reproduce on re-execution ("Flaky") is normally a harness
+    # error (exit 2).  For properties that are themselves about reproducibility (C09) the observed
+    # violation stands: the case that failed once is reported.
+    flaky_is_violation: bool = False
 
     def get_strategy(self):
         s = self.strategy
